@@ -801,7 +801,16 @@ GaloisFieldDict::gf_edf_shoup(const unsigned &n) const
         factors.insert(temp.begin(), temp.end());
     } else {
         auto b = gf_frobenius_monomial_base();
-        auto H = _gf_trace_map(r, n, b);
+        // trace map of r modulo *this: r + r**p + ... + r**(p**(n-1)).
+        // (_gf_trace_map(r, n, b) applies the Frobenius map with receiver and
+        // modulus swapped and made no progress for factors of degree >= 2.)
+        GaloisFieldDict hh = r % (*this);
+        GaloisFieldDict H = hh;
+        for (unsigned i = 1; i < n; ++i) {
+            hh = hh.gf_frobenius_map(*this, b);
+            H += hh;
+            H %= (*this);
+        }
         auto h = gf_pow_mod(H, (mp_get_ui(modulo_) - 1) / 2);
         auto h1 = gf_gcd(h);
         auto h2 = gf_gcd(h - 1_z);
